@@ -56,6 +56,9 @@ func init() {
 			{ID: "C01-R28", Title: "no ordering by integer subtraction (shared with C15-R4)", Floor: 8, Run: c15r4},
 			{ID: "C01-R29", Title: "literals are assembled in source order", Floor: 3, Run: literalsAreAssembledInSourceOrder},
 			{ID: "C01-R30", Title: "nodes are not built on the token before without a look at it (shared with C20-R24)", Floor: 1, Run: nodesAreNotBuiltOnTheTokenBefore},
+			{ID: "C01-R31", Title: "var declares in both its forms", Floor: 1, Run: varDeclaresInBothForms},
+			{ID: "C01-R32", Title: "the dispatch loop gives nil no meaning of its own", Floor: 1, Run: theDispatchLoopGivesNilNoMeaningOfItsOwn},
+			{ID: "C01-R33", Title: "operators do not manufacture constants", Floor: 3, Run: operatorsDoNotManufactureConstants},
 		},
 	})
 }
